@@ -235,7 +235,7 @@ def main():
         st, detail, dt = res['unicode_version']
         if st != 'ok':
             rep.inconc("Kani's core library and the repository toolchain have different Unicode versions (%s vs %s): table contents cannot be decided with this Kani" % (detail, uv))
-        rep.coverage = {
+        cov13 = {
             'evaluations': len(NAMES) - len(beyond), 'distinct_nontrivial': ok,
             'not_decided_by_solver': sorted(beyond),
             'rule': 'one case = one built-in name: Kani/CBMC harness `member(TABLE, c) == predicate(c)` with c an arbitrary char (all 1,112,064 scalar values decided by the SAT solver); '
@@ -248,6 +248,12 @@ def main():
         }
         rep.assumptions = ['the harness\'s own binary search over the table is correct for sorted disjoint tables; sortedness is checked natively',
                            "Kani's toolchain and the repository's toolchain implement the same Unicode version (asserted by a harness)"]
+        # (b) name -> table mapping and both generated lookup shapes, through one-rule lexers in engine M
+        import lexcheck
+        cov13['part_a'] = 'tables vs predicates (Kani)'
+        lexcheck.run_lex(rep, 'C13', extra_coverage=cov13, budget_override=900 if thorough else 400)
+        if rep.coverage is None or 'lexers' not in (rep.coverage or {}):
+            rep.coverage = cov13
     except BuildError as e:
         rep.inconc(str(e)[:2000])
     return rep.finish()
